@@ -10,5 +10,5 @@ Extraction "model.ml"
   find_ctx find_sub
   inv_b ids_ok kept_ok ctx_ok ev_ok
   graft mon_step begin_ok due_ok retry_ok expiry_ok unprimed
-  mon_step_e2e agree_e2e established_ok learned_ok
+  mon_step_e2e agree_e2e established_ok learned_ok skip_ok
   evq_init push all_events report_events qinv_b retained.
